@@ -1051,6 +1051,17 @@ class Canon:
                 and not _mentions(s.value, {x.id for x in t.elts})  # type: ignore[attr-defined]
             ):
                 return [_loc(ast.Assign(targets=[a], value=v), s) for a, v in zip(t.elts, s.value.elts)], 0
+            # S15b `a, b = m.group("A", "B")`  ->  `a = m.group("A")` ; `b = m.group("B")`   (Match.group is a pure lookup)
+            if (
+                isinstance(t, ast.Tuple) and isinstance(s.value, ast.Call) and isinstance(s.value.func, ast.Attribute) and s.value.func.attr == "group"
+                and _simple(s.value.func.value) and not s.value.keywords and len(s.value.args) == len(t.elts) >= 2
+                and all(isinstance(a, ast.Constant) for a in s.value.args) and all(isinstance(x, ast.Name) for x in t.elts)
+                and not _mentions(s.value, {x.id for x in t.elts})  # type: ignore[attr-defined]
+            ):
+                return [
+                    _loc(ast.Assign(targets=[x], value=ast.Call(func=copy.deepcopy(s.value.func), args=[a], keywords=[])), s)
+                    for x, a in zip(t.elts, s.value.args)
+                ], 0
             # S6 default + override: `x = a` ; `if c(x): x = b(x)`  ->  `x1 = a` ; `if c(x1): x = b(x1) else: x = x1`
             if (
                 isinstance(t, ast.Name) and rest
